@@ -323,8 +323,9 @@ def _parse_return(e, intermediate_repr, function_def, emit_default_doc):
                     emit_default_doc=emit_default_doc,
                 )[0],
                 # A code default is carried as a string constant that still wears its back-ticks
-                "default": get_value(e.value.elts[1])
-                if code_quoted(get_value(e.value.elts[1]))
+                "default": e.value.elts[1].value
+                if isinstance(getattr(e.value.elts[1], "value", None), str)
+                and code_quoted(e.value.elts[1].value)
                 else to_code(e.value.elts[1]).rstrip("\n"),
                 "typ": to_code(
                     get_value(
